@@ -24,6 +24,8 @@ def feat(i, seqid, s, e, strand="+", type_="exon", attrs=None):
 
 
 VALS = ["1", "2", "10", "9", "4.2", "5", "5.0", "-3", "a", "b", "x1", "é", "10a"]
+# different spellings of equal numbers: the union keeps every spelling
+NUMV = ["5", "5.0", "10", "10.0", "10.00", "05", "9", "-3", "-3.0", "4.2"]
 
 
 def gen_attrs(rng, i):
@@ -33,7 +35,8 @@ def gen_attrs(rng, i):
     if rng.random() < 0.6:
         a.append(["Parent", [rng.choice(["t1", "t2"])]])
     if rng.random() < 0.5:
-        a.append(["exon_number", sorted(set(rng.choice(VALS[:8]) for _ in range(rng.choice([1, 1, 2]))))])
+        pool = NUMV if rng.random() < 0.5 else VALS[:8]
+        a.append(["exon_number", sorted(set(rng.choice(pool) for _ in range(rng.choice([1, 1, 2, 3]))))])
     if rng.random() < 0.4:
         a.append(["Note", sorted(set(rng.choice(VALS) for _ in range(rng.choice([1, 2, 3]))))])
     rng.shuffle(a)
